@@ -1,5 +1,5 @@
 """C33 — cached state never leaks stale or wrong results into later calls."""
-import os, sys, json, subprocess, random
+import os, sys, json, subprocess, random, time
 from fractions import Fraction
 from common import *
 from props.enginea import proof_side
@@ -58,6 +58,36 @@ def fresh_reference(probes):
     return results
 
 
+class AbortInjected(Exception):
+    pass
+
+
+_dur = {}
+_next_big = {}
+
+
+def async_abort(thunk, frac, rep, key="t"):
+    """Run thunk under an interval timer that raises AbortInjected inside it after about frac of the time a full run takes
+    (estimated by a first, complete, run at a fresh precision is not possible for cached data: so the estimate is a running
+    maximum of the times seen, and aborts that arrive after the call finished are simply no aborts)."""
+    import signal, time
+    def handler(signum, frame):
+        raise AbortInjected()
+    t_est = _dur.get(key, 0.004)
+    old = signal.signal(signal.SIGALRM, handler)
+    t0 = time.time()
+    try:
+        signal.setitimer(signal.ITIMER_REAL, max(1e-4, frac * t_est))
+        thunk()
+    except AbortInjected:
+        pass
+    finally:
+        signal.setitimer(signal.ITIMER_REAL, 0)
+        signal.signal(signal.SIGALRM, old)
+        if key == "t":
+            _dur["t"] = min(0.5, max(0.002, 0.7 * _dur.get("t", 0.004) + 0.3 * 2 * (time.time() - t0)))
+
+
 def leaves(e):
     if e[0] == "f": return [tuple(int(x) for x in e[1:5])]
     if e[0] == "c": return [tuple(int(x) for x in e[1:5]), tuple(int(x) for x in e[5:9])]
@@ -93,7 +123,12 @@ def run(rep, tier_, rng):
         for _ in range(rng.randint(3, 14)):
             k = rng.randrange(6)
             if k == 0:
-                A[rng.randrange(A.rows), rng.randrange(A.cols)] = rng.randint(11, 99); ver += 1; ops.append(0)
+                how = rng.randrange(4)
+                if how == 0: A[rng.randrange(A.rows), rng.randrange(A.cols)] = rng.randint(11, 99)
+                elif how == 1: A[rng.randrange(A.rows), :] = matrix([[rng.randint(11, 99) for _ in range(A.cols)]])      # row slice
+                elif how == 2: A[:, rng.randrange(A.cols)] = matrix([[rng.randint(11, 99)] for _ in range(A.rows)])      # column slice
+                else: A[0:2, 1:3] = matrix([[rng.randint(11, 99), rng.randint(1, 9)], [rng.randint(1, 9), rng.randint(11, 99)]])   # block
+                ver += 1; ops.append(0)
             elif k == 1:
                 A.rows = A.rows; A.cols = A.cols; ver += 1; ops.append(1)    # setter path (size unchanged keeps it solvable)
             elif k == 2:
@@ -149,10 +184,25 @@ def run(rep, tier_, rng):
         for _ in range(rng.randint(4, 10)):
             name = rng.choice(PROBE_NAMES); prec = rng.choice([15, 30, 53, 64, 100, 150, 250, 400])
             hist_steps += 1
-            if rng.random() < 0.4:
+            u = rng.random()
+            if u < 0.3:
                 L.verif_state["count"] = 0; L.verif_state["fault_at"] = rng.randint(1, 400); faults += 1
             try:
-                run_probe(name, prec)
+                if 0.3 <= u < 0.6:
+                    # asynchronous abort at an arbitrary internal point (integer-only code such as the constant generators
+                    # never passes through normalize): time the call once, then abort a repetition part-way
+                    faults += 1
+                    if name in ("pi", "e", "ln2", "euler", "catalan", "log7", "atan", "cos", "exp", "zeta3"):
+                        # a precision never requested before, so that the cached data has to be extended inside the aborted call
+                        big = _next_big.get(name, 3000); _next_big[name] = big + 2000
+                        if name not in _dur:
+                            t0 = time.time(); run_probe(name, big); _dur[name] = time.time() - t0
+                            big = _next_big[name]; _next_big[name] = big + 2000
+                        async_abort(lambda: run_probe(name, big), rng.uniform(0.05, 0.95), rep, key=name)
+                    else:
+                        async_abort(lambda: run_probe(name, prec), rng.uniform(0.02, 0.98), rep)
+                else:
+                    run_probe(name, prec)
             except Exception:
                 pass
             finally:
@@ -170,6 +220,29 @@ def run(rep, tier_, rng):
             if len(la) != len(lb) or not all(close(a, b, prec) for a, b in zip(la, lb)):
                 rep.violation("probe %s at prec %d differs from a fresh process beyond rounding level" % (name, prec),
                               {"fn": name, "prec": prec, "got": got, "fresh": want})
+    # ---- C. odefun segment cache: the value at a point does not depend on which segments were generated before
+    ode_cmp = 0; enc = ns["enc"]
+    for _ in range(6 if tier_ == "quick" else 60):
+        prec = rng.choice([30, 53, 100]); mp.prec = prec
+        which = rng.randrange(3)
+        if which == 0: rhs, x0, y0 = (lambda x, y: y), 0, 1
+        elif which == 1: rhs, x0, y0 = (lambda x, y: [y[1], -y[0]]), 0, [1, 0]
+        else: rhs, x0, y0 = (lambda x, y: -2 * y), 1, mp.mpf(3) / 4
+        pts = [mp.mpf(x0), mp.mpf(x0) + mp.mpf(1) / 8, mp.mpf(x0) + 1, mp.mpf(x0) + rng.randint(2, 6), mp.mpf(x0) + mp.mpf(rng.randint(1, 40)) / 8]
+        f1 = mp.odefun(rhs, x0, y0); f2 = mp.odefun(rhs, x0, y0)
+        asc = {str(x): enc(f1(x)) for x in sorted(pts)}
+        order = list(pts); rng.shuffle(order); order = sorted(pts, reverse=True)[:2] + order + [pts[0]]
+        for x in order:
+            ode_cmp += 1
+            got = enc(f2(x))
+            if got != asc[str(x)]:
+                rep.violation("odefun value at x = %s depends on the order of earlier evaluations" % x,
+                              {"fn": "odefun", "problem": which, "prec": prec, "x": str(x), "ascending": asc[str(x)], "other_order": got})
+        init = enc(f2(mp.mpf(x0)))
+        want = enc(mp.matrix(y0) if isinstance(y0, list) else mp.mpf(y0))
+        if leaves(init) != leaves(want) and not (isinstance(y0, list) and [str(v) for v in leaves(init)] == [str(v) for v in leaves(want)]):
+            rep.violation("odefun interpolant does not return the initial value at x0 after later segments were generated",
+                          {"fn": "odefun", "problem": which, "prec": prec, "got": init, "want": want})
     mp.prec = 53
     rep.coverage = {
         "obligations": obligations, "discharged": discharged, "checker_cmd": " && ".join(cmds), "trusted_base": trusted + [
@@ -178,7 +251,7 @@ def run(rep, tier_, rng):
         "rule": "random operation sequences on a live matrix / memoised function compared with the extracted Coq cache machines; random evaluation histories with injected faults followed by probes compared (<= 8 ulp) with the same probe in a fresh process",
         "samples": [{"lu_ops": reqs[0][1], "impl": reals[0]}, {"memo_calls": memo_reqs[0][1], "impl": memo_reals[0]}, {"probes": probes[:5]}],
         "traces_validated_against_impl": len(reqs) + len(memo_reqs), "state_machine_disagreements": sm_bad,
-        "history_steps": hist_steps, "injected_faults": faults, "probe_comparisons": compared,
+        "history_steps": hist_steps, "injected_faults": faults, "probe_comparisons": compared, "odefun_order_comparisons": ode_cmp,
     }
     rep.assumptions = ["caches other than memoize and the matrix LU cache (constants, Bernoulli, log/atan/cos-sin tables, quadrature nodes, hypergeometric summators, odefun segments) are decided by the history/probe comparison only"]
 
